@@ -29,7 +29,7 @@ def _ev(*a, **k):
     return ev
 
 
-from ..symx import SymEval, Path, SymObj, Opaque, WouldRaise, is_zero, module_aliases
+from ..symx import SymEval, Path, SymObj, PyStub, Opaque, WouldRaise, is_zero, module_aliases
 from .. import dims
 from ..dims import F
 
@@ -419,6 +419,68 @@ def derived_state(ctx):
     ctx.floor('DERIVED-STATE', n, 1)
 
 
+def set_literal_rule(ctx):
+    """set_literal('value unit'): the value part is any Python literal (number, list, tuple, nested list), the unit part what follows the last blank that leaves a literal to
+    its left; evaluated on concrete terms with a recording set_in_units"""
+    import ast as _ast
+    from ..symx import ModelError
+    fn = ctx.fn(UC, 'set_literal')
+    loc = UC + '::set_literal'
+
+    class _Ast(PyStub):
+        def literal_eval(self, text):
+            if not isinstance(text, str):
+                raise Opaque('literal_eval of a non-text value')
+            try:
+                return _ast.literal_eval(text)
+            except Exception as e:
+                raise ModelError(type(e).__name__ if type(e).__name__ in ('ValueError', 'SyntaxError', 'TypeError') else 'ValueError', str(e))
+
+    def to_float(x=0):
+        if isinstance(x, str):
+            try:
+                return sp.nsimplify(float(x))
+            except ValueError as e:
+                raise ModelError('ValueError', str(e))
+        if isinstance(x, (list, tuple)):
+            raise ModelError('TypeError', 'float() argument must be a string or a real number')
+        return x
+    cases = [('1.124 nm', 1.124, 'nm'), ('[1.0, 2.5, -4.0] nm', [1.0, 2.5, -4.0], 'nm'), ('(3, 4) eV/angstrom^3', (3, 4), 'eV/angstrom^3'), ('-3 kg * m / s^2', -3, 'kg * m / s^2'), ('7', 7, None),
+             ('[[1, 2], [3, 4]] GPa', [[1, 2], [3, 4]], 'GPa'), ('1e5 1e-12*C', 1e5, '1e-12*C')]
+    n = 0
+    for term, wantv, wantu in cases:
+        got = []
+        ev = SymEval(module_aliases(ctx.mod(UC)))
+        ev.globals = {'ast': _Ast(), 'set_in_units': lambda value, units: (got.append((value, units)), ('SET', len(got)))[1], 'float': to_float}
+        try:
+            live = [q for q in ev.run_fn(fn, [term], {}) if q.done == 'return']
+            st_ = 'accepted' if len(live) == 1 else 'refused'
+        except WouldRaise:
+            st_ = 'refused'
+        except Opaque as e:
+            raise AnalysisError('set_literal(%r): %s' % (term, e))
+
+        def same(a, b):
+            if isinstance(b, (list, tuple)):
+                return isinstance(a, (list, tuple)) and len(a) == len(b) and all(same(x, y) for x, y in zip(a, b))
+            try:
+                return abs(float(a) - float(b)) < 1e-12
+            except (TypeError, ValueError):
+                return False
+        n += 1
+        ok = st_ == 'accepted' and len(got) >= 1 and same(got[-1][0], wantv) and got[-1][1] == wantu and (not isinstance(wantv, (list, tuple)) or type(got[-1][0]) is type(wantv))
+        ctx.ob('INVERSE-PAIR', loc, 'set_literal(%r): the value %r is converted from %s' % (term, wantv, wantu or 'no unit'), bool(ok), 'the call is %s; converted %s' % (st_, got[-1:] or None), node=fn, key='literal ' + term)
+    ev = SymEval(module_aliases(ctx.mod(UC)))
+    ev.globals = {'ast': _Ast(), 'set_in_units': lambda value, units: ('SET',), 'float': to_float}
+    try:
+        live = [q for q in ev.run_fn(fn, ['nm'], {}) if q.done == 'return']
+        refused = not live
+    except WouldRaise:
+        refused = True
+    ctx.ob('INVERSE-PAIR', loc, "set_literal('nm') (no value) is refused", refused, node=fn, key='literal refuse')
+    ctx.floor('INVERSE-PAIR/literal', n, 7)
+
+
 def run(ctx):
     _MOD[0] = ctx.mod(UC)
     ctx.explanation = ('C09: reset_units is evaluated over the monomial algebra of the four base units for all 29 admissible named choices and each chosen unit must come out as 1; '
@@ -426,7 +488,7 @@ def run(ctx):
                        'the reduction half of parse() is extracted and compared with ordinary precedence on all operator patterns up to four operators; tokenizer structure; model keys. '
                        'Not decided: floating-point round-trip identity, random working-unit seeds.')
     from .. import lints
-    ctx.run_rules([working_units, style_tables, inverse_pair, precedence, model_keys, derived_state,
+    ctx.run_rules([working_units, style_tables, inverse_pair, precedence, model_keys, derived_state, set_literal_rule,
                    lambda c: lints.fresh_results(c, 'DERIVED-STATE', UC, floor=9, what='a value computed from the working units in force (a memoised parse() would outlive reset_units)'),
                    # "all scalar/array values": plain numbers, lists and tuples are admitted by the array-like annotation of every conversion function
                    lambda c: lints.arraylike(c, 'ARRAY-LIKE', UC, floor=4, extra_converters=('get_in_units', 'set_in_units'))])
